@@ -1,0 +1,91 @@
+//go:build verif
+
+// Contracts for the verifier in /verif (comment-only file; compiled only with -tags verif).
+
+package tls
+
+//@ uf skey(Int) Str
+
+//@ spec lseq(c) = ghost(listseq, c.q)
+//@ spec entryof(e) = e.Value.(*lruSessionCacheEntry)
+//@ spec wfelem(c, e, k) = e != nil && allocated(e) && seqhas(lseq(c), val(e)) && istype(e.Value, *lruSessionCacheEntry) && entryof(e) != nil && allocated(entryof(e)) && entryof(e).sessionKey == k
+//@ spec wfmap(c) = forall j: has(c.m, skey(j)) ==> wfelem(c, c.m[skey(j)], skey(j))
+//@ spec wflist(c) = forall x: seqhas(lseq(c), x) ==> exists i: has(c.m, skey(i)) && val(c.m[skey(i)]) == x
+//@ spec wfcache(c) = c.m != nil && c.q != nil && c.capacity >= 1 && seqwf(lseq(c)) && seqlen(lseq(c)) <= c.capacity && wfmap(c) && wflist(c)
+//@ spec cstate(c, k) = entryof(c.m[k]).state
+//@ spec kpos(c, k) = seqpos(lseq(c), val(c.m[k]))
+
+//@ func NewLRUClientSessionCache
+//@   property C36
+//@   modifies nothing
+//@   ensures typ: istype(ret, *lruSessionCache) && ret.(*lruSessionCache) != nil && fresh(ret)
+//@   ensures capacity: ret.(*lruSessionCache).capacity == ite(capacity < 1, 64, capacity)
+//@   ensures wf: wfcache(ret.(*lruSessionCache))
+//@   ensures empty: seqlen(lseq(ret.(*lruSessionCache))) == 0 && forall j: !has(ret.(*lruSessionCache).m, skey(j))
+
+//@ func (*lruSessionCache).Get
+//@   property C36
+//@   let p = kpos(c, sessionKey)
+//@   requires c != nil && wfcache(c)
+//@   requires keynum: skey(strid(sessionKey)) == sessionKey
+//@   modifies ghost(listseq, c.q)
+//@   ensures wf: wfcache(c)
+//@   ensures cap: seqlen(lseq(c)) <= c.capacity && seqlen(lseq(c)) == old(seqlen(lseq(c)))
+//@   ensures hit: has(c.m, sessionKey) ==> ret1 && ret0 == cstate(c, sessionKey)
+//@   ensures miss: !has(c.m, sessionKey) ==> !ret1 && ret0 == nil && lseq(c) == old(lseq(c))
+//@   ensures hitfront: has(c.m, sessionKey) ==> kpos(c, sessionKey) == 0
+//@   ensures hitorder: has(c.m, sessionKey) ==> forall j: has(c.m, skey(j)) && skey(j) != sessionKey ==> kpos(c, skey(j)) == old(kpos(c, skey(j))) + ite(old(kpos(c, skey(j))) < p, 1, 0)
+
+//@ func (*lruSessionCache).Put
+//@   property C36
+//@   let P = has(c.m, sessionKey)
+//@   let L = seqlen(lseq(c))
+//@   let p = kpos(c, sessionKey)
+//@   requires c != nil && wfcache(c)
+//@   requires keynum: skey(strid(sessionKey)) == sessionKey
+//@   ensures wfbase: c.m != nil && c.q != nil && c.capacity >= 1 && seqwf(lseq(c))
+//@   ensures wfmap: wfmap(c)
+//@   ensures wflist: wflist(c)
+//@   ensures cap: seqlen(lseq(c)) <= c.capacity && c.capacity == old(c.capacity)
+//@   ensures set: cs != nil ==> has(c.m, sessionKey) && cstate(c, sessionKey) == cs && kpos(c, sessionKey) == 0
+//@   ensures del: cs == nil && P ==> !has(c.m, sessionKey) && seqlen(lseq(c)) == L - 1
+//@   ensures delothers: cs == nil && P ==> forall j: skey(j) != sessionKey ==> (has(c.m, skey(j)) <==> old(has(c.m, skey(j)))) && (has(c.m, skey(j)) ==> cstate(c, skey(j)) == old(cstate(c, skey(j))) && kpos(c, skey(j)) == old(kpos(c, skey(j))) - ite(old(kpos(c, skey(j))) > p, 1, 0))
+//@   ensures updlen: cs != nil && P ==> seqlen(lseq(c)) == L
+//@   ensures updothers: cs != nil && P ==> forall j: skey(j) != sessionKey ==> (has(c.m, skey(j)) <==> old(has(c.m, skey(j)))) && (has(c.m, skey(j)) ==> cstate(c, skey(j)) == old(cstate(c, skey(j))) && kpos(c, skey(j)) == old(kpos(c, skey(j))) + ite(old(kpos(c, skey(j))) < p, 1, 0))
+//@   ensures inslen: cs != nil && !P && L < c.capacity ==> seqlen(lseq(c)) == L + 1
+//@   ensures insothers: cs != nil && !P && L < c.capacity ==> forall j: skey(j) != sessionKey ==> (has(c.m, skey(j)) <==> old(has(c.m, skey(j)))) && (has(c.m, skey(j)) ==> cstate(c, skey(j)) == old(cstate(c, skey(j))) && kpos(c, skey(j)) == old(kpos(c, skey(j))) + 1)
+//@   ensures evictlen: cs != nil && !P && L >= c.capacity ==> seqlen(lseq(c)) == L
+//@   ensures evictothers: cs != nil && !P && L >= c.capacity ==> forall j: skey(j) != sessionKey ==> (has(c.m, skey(j)) <==> (old(has(c.m, skey(j))) && old(kpos(c, skey(j))) != L - 1)) && (has(c.m, skey(j)) ==> cstate(c, skey(j)) == old(cstate(c, skey(j))) && kpos(c, skey(j)) == old(kpos(c, skey(j))) + 1)
+//@   ensures DEFECT_C36_putnil_absent: cs == nil && !P ==> !has(c.m, sessionKey) && seqlen(lseq(c)) == L
+
+// ---------------------------------------------------------------------------------------------
+// C29: Roller.
+
+//@ spec sameid(a, b) = a.Client == b.Client && a.Version == b.Version && a.Seed == b.Seed && a.Weights == b.Weights
+
+//@ func NewPRNGSeed
+//@   property C29
+//@   opaque crypto/rand.Read
+//@   ensures ok: ret1 == nil ==> ret0 != nil && fresh(ret0)
+//@   ensures err: ret1 != nil ==> ret0 == nil
+
+//@ func newPRNGWithSeed
+//@   property C29
+//@   requires seed != nil
+//@   modifies nothing
+//@   ensures ok: ret1 == nil ==> ret0 != nil && fresh(ret0) && ret0.rand != nil && ret0.randomStream != nil
+//@   ensures err: ret1 != nil ==> ret0 == nil
+
+//@ func newPRNG
+//@   property C29
+//@   modifies nothing
+//@   ensures ok: ret1 == nil ==> ret0 != nil && fresh(ret0) && ret0.rand != nil && ret0.randomStream != nil
+//@   ensures err: ret1 != nil ==> ret0 == nil
+
+//@ func NewRoller
+//@   property C29
+//@   ensures err: ret1 != nil ==> ret0 == nil
+//@   ensures ok: ret1 == nil ==> ret0 != nil && fresh(ret0) && ret0.r != nil && ret0.r.rand != nil && ret0.WorkingHelloID == nil
+//@   ensures tcp: ret1 == nil ==> 7000000000 <= ret0.TcpDialTimeout && ret0.TcpDialTimeout <= 20000000000 && ret0.TcpDialTimeout % 1000000000 == 0
+//@   ensures tls: ret1 == nil ==> 11000000000 <= ret0.TlsHandshakeTimeout && ret0.TlsHandshakeTimeout <= 30000000000 && ret0.TlsHandshakeTimeout % 1000000000 == 0
+//@   ensures ids: ret1 == nil ==> len(ret0.HelloIDs) == 4 && sameid(ret0.HelloIDs[0], HelloChrome_Auto) && sameid(ret0.HelloIDs[1], HelloFirefox_Auto) && sameid(ret0.HelloIDs[2], HelloIOS_Auto) && sameid(ret0.HelloIDs[3], HelloRandomized)
